@@ -1,5 +1,458 @@
 package harness
 
+import (
+	"bytes"
+	"fmt"
+	"io/fs"
+	"os"
+	"os/exec"
+	"path/filepath"
+	"sort"
+	"strings"
+	"syscall"
+
+	simfp "verif.local/sim/simfilepath"
+	simos "verif.local/sim/simos"
+	"verif.local/sim/world"
+)
+
+// runSelftests dispatches the fidelity self-tests (the determinism self-test is
+// driven by the coordinator through ordinary run jobs with dump_log).
 func runSelftests(p *Program, job *Job) {
-	send(Msg{T: "done", Stats: NewStats()})
+	st := NewStats()
+	var fails []string
+	switch job.Prop {
+	case "fidelity-fs":
+		fails = fidelityFS(job, st)
+	case "fidelity-cli":
+		fails = fidelityCLI(p, job, st)
+	default:
+		fails = []string{"unknown selftest " + job.Prop}
+	}
+	st.Finish()
+	send(Msg{T: "done", Stats: st, Text: strings.Join(fails, "\n")})
+}
+
+// ---------------------------------------------------------------------------
+// (a) SimFS vs the kernel filesystem
+
+type fsOp struct {
+	op   string
+	a, b string
+	data []byte
+	flag int
+}
+
+func genFSScript(r *world.PRNG) []fsOp {
+	names := []string{"a", "b", "c.go", "d", "a/x", "a/y.go", "a/x/z", "b/k", "d/e", "d/e/f.go", "l1", "l2", "a/l3", "missing", "a/missing/q"}
+	pick := func() string { return names[r.Intn(len(names))] }
+	var ops []fsOp
+	n := r.Range(8, 40)
+	for i := 0; i < n; i++ {
+		switch r.Intn(16) {
+		case 0, 1:
+			ops = append(ops, fsOp{op: "mkdir", a: pick()})
+		case 2, 3, 4:
+			ops = append(ops, fsOp{op: "writefile", a: pick(), data: []byte(fmt.Sprintf("content-%d-%d", i, r.Intn(1000)))})
+		case 5:
+			ops = append(ops, fsOp{op: "readfile", a: pick()})
+		case 6:
+			ops = append(ops, fsOp{op: "rename", a: pick(), b: pick()})
+		case 7:
+			ops = append(ops, fsOp{op: "remove", a: pick()})
+		case 8:
+			t := pick()
+			if r.Chance(1, 2) {
+				t = "../" + t
+			}
+			ops = append(ops, fsOp{op: "symlink", a: t, b: pick()})
+		case 9:
+			ops = append(ops, fsOp{op: "stat", a: pick()})
+		case 10:
+			ops = append(ops, fsOp{op: "lstat", a: pick()})
+		case 11:
+			ops = append(ops, fsOp{op: "readdir", a: pick()})
+		case 12:
+			flags := []int{os.O_RDONLY, os.O_WRONLY, os.O_WRONLY | os.O_CREATE, os.O_WRONLY | os.O_CREATE | os.O_EXCL, os.O_WRONLY | os.O_TRUNC, os.O_RDWR | os.O_CREATE | os.O_TRUNC, os.O_WRONLY | os.O_APPEND}
+			ops = append(ops, fsOp{op: "open", a: pick(), flag: flags[r.Intn(len(flags))], data: []byte(fmt.Sprintf("w%d", i))})
+		case 13:
+			ops = append(ops, fsOp{op: "walk", a: pick()})
+		case 14:
+			ops = append(ops, fsOp{op: "readlink", a: pick()})
+		default:
+			ops = append(ops, fsOp{op: "removeall", a: pick()})
+		}
+	}
+	ops = append(ops, fsOp{op: "walk", a: "."})
+	return ops
+}
+
+func errnoOf(err error) string {
+	if err == nil {
+		return "ok"
+	}
+	var e syscall.Errno
+	switch x := err.(type) {
+	case *fs.PathError:
+		if en, ok := x.Err.(syscall.Errno); ok {
+			e = en
+			return x.Op + ":" + world.ErrnoName(e)
+		}
+		return x.Op + ":" + x.Err.Error()
+	case *os.LinkError:
+		if en, ok := x.Err.(syscall.Errno); ok {
+			return x.Op + ":" + world.ErrnoName(en)
+		}
+	case *simos.LinkError:
+		if en, ok := x.Err.(syscall.Errno); ok {
+			return x.Op + ":" + world.ErrnoName(en)
+		}
+	}
+	return "err:" + err.Error()
+}
+
+func infoStr(fi fs.FileInfo) string {
+	size := fi.Size()
+	if fi.IsDir() || fi.Mode()&fs.ModeSymlink != 0 {
+		size = 0
+	}
+	return fmt.Sprintf("%s %s %d", fi.Name(), fi.Mode().Type(), size)
+}
+
+// fsAPI abstracts over the real and the simulated os/filepath.
+type fsAPI struct {
+	root      string
+	mkdir     func(string) error
+	writeFile func(string, []byte) error
+	readFile  func(string) ([]byte, error)
+	rename    func(string, string) error
+	remove    func(string) error
+	removeAll func(string) error
+	symlink   func(string, string) error
+	stat      func(string) (fs.FileInfo, error)
+	lstat     func(string) (fs.FileInfo, error)
+	readDir   func(string) ([]fs.DirEntry, error)
+	readlink  func(string) (string, error)
+	open      func(string, int, []byte) (string, error)
+	walk      func(string, func(string, fs.FileInfo, error) error) error
+}
+
+func realAPI(root string) fsAPI {
+	return fsAPI{
+		root:      root,
+		mkdir:     func(p string) error { return os.Mkdir(p, 0o755) },
+		writeFile: func(p string, d []byte) error { return os.WriteFile(p, d, 0o644) },
+		readFile:  os.ReadFile,
+		rename:    os.Rename,
+		remove:    os.Remove,
+		removeAll: os.RemoveAll,
+		symlink:   os.Symlink,
+		stat:      os.Stat,
+		lstat:     os.Lstat,
+		readDir:   os.ReadDir,
+		readlink:  os.Readlink,
+		open: func(p string, flag int, d []byte) (string, error) {
+			f, err := os.OpenFile(p, flag, 0o644)
+			if err != nil {
+				return "", err
+			}
+			defer f.Close()
+			if flag&(os.O_WRONLY|os.O_RDWR) != 0 {
+				_, err = f.Write(d)
+				return "wrote", err
+			}
+			b := make([]byte, 8)
+			n, err := f.Read(b)
+			if err != nil && err.Error() == "EOF" {
+				err = nil
+			}
+			return string(b[:n]), err
+		},
+		walk: func(r string, f func(string, fs.FileInfo, error) error) error { return filepath.Walk(r, f) },
+	}
+}
+
+func simAPI(root string) fsAPI {
+	return fsAPI{
+		root:      root,
+		mkdir:     func(p string) error { return simos.Mkdir(p, 0o755) },
+		writeFile: func(p string, d []byte) error { return simos.WriteFile(p, d, 0o644) },
+		readFile:  simos.ReadFile,
+		rename:    simos.Rename,
+		remove:    simos.Remove,
+		removeAll: simos.RemoveAll,
+		symlink:   simos.Symlink,
+		stat:      simos.Stat,
+		lstat:     simos.Lstat,
+		readDir:   simos.ReadDir,
+		readlink:  simos.Readlink,
+		open: func(p string, flag int, d []byte) (string, error) {
+			f, err := simos.OpenFile(p, flag, 0o644)
+			if err != nil {
+				return "", err
+			}
+			defer f.Close()
+			if flag&(os.O_WRONLY|os.O_RDWR) != 0 {
+				_, err = f.Write(d)
+				return "wrote", err
+			}
+			b := make([]byte, 8)
+			n, err := f.Read(b)
+			if err != nil && err.Error() == "EOF" {
+				err = nil
+			}
+			return string(b[:n]), err
+		},
+		walk: func(r string, f func(string, fs.FileInfo, error) error) error { return simfp.Walk(r, f) },
+	}
+}
+
+func runFSScript(api fsAPI, ops []fsOp) []string {
+	var out []string
+	p := func(s string) string { return api.root + "/" + s }
+	for _, o := range ops {
+		var line string
+		switch o.op {
+		case "mkdir":
+			line = errnoOf(api.mkdir(p(o.a)))
+		case "writefile":
+			line = errnoOf(api.writeFile(p(o.a), o.data))
+		case "readfile":
+			b, err := api.readFile(p(o.a))
+			line = errnoOf(err) + " " + string(b)
+		case "rename":
+			line = errnoOf(api.rename(p(o.a), p(o.b)))
+		case "remove":
+			line = errnoOf(api.remove(p(o.a)))
+		case "removeall":
+			// the real RemoveAll reports varying syscall names; compare the errno only
+			line = errnoOf(api.removeAll(p(o.a)))
+			if i := strings.Index(line, ":"); i >= 0 {
+				line = "removeall" + line[i:]
+			}
+		case "symlink":
+			line = errnoOf(api.symlink(o.a, p(o.b)))
+		case "stat":
+			fi, err := api.stat(p(o.a))
+			line = errnoOf(err)
+			if err == nil {
+				line += " " + infoStr(fi)
+			}
+		case "lstat":
+			fi, err := api.lstat(p(o.a))
+			line = errnoOf(err)
+			if err == nil {
+				line += " " + infoStr(fi)
+			}
+		case "readdir":
+			es, err := api.readDir(p(o.a))
+			line = errnoOf(err)
+			for _, e := range es {
+				line += " " + e.Name() + ":" + e.Type().String()
+			}
+		case "readlink":
+			t, err := api.readlink(p(o.a))
+			line = errnoOf(err) + " " + t
+		case "open":
+			s, err := api.open(p(o.a), o.flag, o.data)
+			line = errnoOf(err) + " " + s
+		case "walk":
+			var sb strings.Builder
+			err := api.walk(p(o.a), func(path string, info fs.FileInfo, err error) error {
+				rel := strings.TrimPrefix(path, api.root)
+				if err != nil {
+					sb.WriteString(" [" + rel + " " + errnoOf(err) + "]")
+					return nil
+				}
+				sb.WriteString(" " + rel + ":" + info.Mode().Type().String())
+				if info.IsDir() && strings.HasSuffix(rel, "/b") {
+					return filepath.SkipDir
+				}
+				return nil
+			})
+			line = errnoOf(err) + sb.String()
+		}
+		out = append(out, o.op+" "+o.a+" "+o.b+" => "+line)
+	}
+	return out
+}
+
+func fidelityFS(job *Job, st *Stats) []string {
+	var fails []string
+	n := job.To
+	if n <= 0 {
+		n = 2000
+	}
+	for i := 0; i < n; i++ {
+		if i%job.Workers != job.Worker {
+			continue
+		}
+		r := world.NewPRNG(world.Mix(job.Seed, 4242, uint64(i)))
+		ops := genFSScript(r)
+		dir, err := os.MkdirTemp("", "veriffid")
+		if err != nil {
+			return []string{"mkdtemp: " + err.Error()}
+		}
+		// the script root is nested so that "../x" symlink targets stay inside the sandbox
+		os.MkdirAll(dir+"/r/r", 0o755)
+		realOut := runFSScript(realAPI(dir+"/r/r"), ops)
+		os.RemoveAll(dir)
+		w := world.New(world.Spec{Cwd: "/sim/fid/r/r", Nodes: []world.NodeSpec{{Path: "/sim/fid/r/r", Kind: "dir"}}})
+		simos.SetWorld(w)
+		simOut := runFSScript(simAPI("/sim/fid/r/r"), ops)
+		simos.SetWorld(nil)
+		st.Evaluations++
+		st.Ops += uint64(len(ops))
+		for k := range realOut {
+			a := strings.ReplaceAll(realOut[k], dir, "/sim/fid")
+			if a != simOut[k] {
+				fails = append(fails, fmt.Sprintf("script %d step %d: kernel %q, SimFS %q", i, k, a, simOut[k]))
+				break
+			}
+			st.Seen(strings.SplitN(simOut[k], " ", 2)[0] + "=>" + strings.SplitN(strings.SplitN(simOut[k], "=> ", 2)[1], " ", 2)[0])
+		}
+		if len(fails) > 5 {
+			break
+		}
+	}
+	return fails
+}
+
+// ---------------------------------------------------------------------------
+// (b) the simulated program vs the real binary on the real filesystem
+
+func fidelityCLI(p *Program, job *Job, st *Stats) []string {
+	var fails []string
+	realBin := os.Getenv("VERIF_REAL_BIN")
+	if realBin == "" {
+		return []string{"VERIF_REAL_BIN not set"}
+	}
+	n := job.To
+	if n <= 0 {
+		n = 300
+	}
+	env := &Env{Prog: p, Stats: NewStats(), Tier: "quick", Quiet: true}
+	for i := 0; i < n; i++ {
+		if i%job.Workers != job.Worker {
+			continue
+		}
+		// fault-free worlds from three generators
+		var c *Case
+		switch i % 3 {
+		case 0:
+			c = Lookup("C06").Gen(env, job.Seed, "quick", i)
+		case 1:
+			c = Lookup("C12").Gen(env, job.Seed, "quick", i*5) // agree family
+			if c != nil && c.Sub != "agree" {
+				c = nil
+			}
+		default:
+			c = Lookup("C15").Gen(env, job.Seed, "quick", i)
+		}
+		if c == nil {
+			continue
+		}
+		skip := false
+		for _, nd := range c.Spec.Nodes {
+			if nd.Kind == "fifo" || nd.Mode != 0 {
+				skip = true
+			}
+		}
+		if skip {
+			continue
+		}
+		spec := c.Spec.Clone()
+		spec.Faults = nil
+		spec.Knobs = world.Knobs{Seed: spec.Knobs.Seed}
+		sim := RunCLI(p, spec)
+		if sim.Outcome != OutExit {
+			continue
+		}
+		dir, err := os.MkdirTemp("", "verifcli")
+		if err != nil {
+			return []string{"mkdtemp: " + err.Error()}
+		}
+		dir, _ = filepath.EvalSymlinks(dir)
+		mapP := func(s string) string { return strings.ReplaceAll(s, SimRoot, dir) }
+		for _, nd := range spec.Nodes {
+			rp := mapP(nd.Path)
+			switch nd.Kind {
+			case "dir":
+				os.MkdirAll(rp, 0o755)
+			case "file":
+				os.MkdirAll(filepath.Dir(rp), 0o755)
+				os.WriteFile(rp, []byte(mapP(string(nd.Data))), 0o644)
+			case "symlink":
+				os.MkdirAll(filepath.Dir(rp), 0o755)
+				os.Symlink(mapP(nd.Target), rp)
+			}
+		}
+		var args []string
+		for _, a := range spec.Args {
+			args = append(args, mapP(a))
+		}
+		cmd := exec.Command(realBin, args...)
+		cmd.Dir = mapP(spec.Cwd)
+		cmd.Stdin = bytes.NewReader(spec.Stdin)
+		var so, se bytes.Buffer
+		cmd.Stdout, cmd.Stderr = &so, &se
+		err = cmd.Run()
+		exit := 0
+		if ee, ok := err.(*exec.ExitError); ok {
+			exit = ee.ExitCode()
+		} else if err != nil {
+			os.RemoveAll(dir)
+			return []string{"running the real binary: " + err.Error()}
+		}
+		// compare
+		unmap := func(b []byte) string { return strings.ReplaceAll(string(b), dir, SimRoot) }
+		what := ""
+		switch {
+		case exit != sim.Exit:
+			what = fmt.Sprintf("exit status real %d sim %d", exit, sim.Exit)
+		case unmap(so.Bytes()) != string(sim.Stdout):
+			what = fmt.Sprintf("stdout differs: real %q sim %q", clip(unmap(so.Bytes()), 200), clip(string(sim.Stdout), 200))
+		case unmap(se.Bytes()) != string(sim.Stderr):
+			what = fmt.Sprintf("stderr differs: real %q sim %q", clip(unmap(se.Bytes()), 200), clip(string(sim.Stderr), 200))
+		}
+		if what == "" {
+			// final trees
+			var realFiles []string
+			filepath.Walk(dir, func(path string, info fs.FileInfo, err error) error {
+				if err == nil && info.Mode().IsRegular() {
+					b, _ := os.ReadFile(path)
+					realFiles = append(realFiles, strings.ReplaceAll(path, dir, SimRoot)+"\x00"+unmap(b))
+				}
+				return nil
+			})
+			var simFiles []string
+			for _, s := range sim.Final {
+				if s.Kind == world.KFile {
+					simFiles = append(simFiles, s.Path+"\x00"+string(s.Data))
+				}
+			}
+			sort.Strings(realFiles)
+			sort.Strings(simFiles)
+			if strings.Join(realFiles, "\x01") != strings.Join(simFiles, "\x01") {
+				what = "final file trees differ"
+				for k := range realFiles {
+					if k >= len(simFiles) || realFiles[k] != simFiles[k] {
+						what += ": " + clip(realFiles[k], 200)
+						break
+					}
+				}
+			}
+		}
+		os.RemoveAll(dir)
+		st.Evaluations++
+		st.Runs++
+		st.Seen(fmt.Sprintf("%s|%d", c.Prop, sim.Exit))
+		if what != "" {
+			fails = append(fails, fmt.Sprintf("world %d (%s, args %v): %s", i, c.Prop, spec.Args, what))
+			if len(fails) > 5 {
+				break
+			}
+		}
+	}
+	return fails
 }
